@@ -381,3 +381,195 @@ pub fn dupstream_strategy() -> impl proptest::strategy::Strategy<Value = DupStre
     use proptest::prelude::*;
     proptest::collection::vec(prop_oneof![2 => Just(0u8), 3 => Just(1u8), 1 => Just(2u8), 1 => Just(3u8)], 1..8).prop_map(|ops| DupStreamCase { ops })
 }
+
+// ------------------------------------------------------------------------------------------------
+// a make-service with back-pressure (a cap on live connections, as tower's ConcurrencyLimit / Buffer
+// give it): the serving loop must respect the tower contract - `call` only after `poll_ready`
+// returned Ready(Ok) - also when a stalled client keeps the cap reached for a while
+
+#[derive(Clone, Debug, Serialize, Deserialize, PartialEq)]
+pub struct MakeReadyCase {
+    pub cap: u8,
+    /// clients in connect order: (start ms, stall ms before sending the request; 0 = well-behaved,
+    /// 255 = never sends and leaves after 40 ms)
+    pub clients: Vec<(u8, u8)>,
+    /// 0 http1, 1 auto
+    pub proto: u8,
+}
+
+#[derive(Default)]
+struct MakeState {
+    live: usize,
+    ready_granted: bool,
+    violations: Vec<String>,
+    waker: Option<std::task::Waker>,
+}
+
+#[derive(Clone)]
+struct CappedMake {
+    st: Arc<std::sync::Mutex<MakeState>>,
+    cap: usize,
+}
+
+struct Permit(Arc<std::sync::Mutex<MakeState>>);
+impl Drop for Permit {
+    fn drop(&mut self) {
+        let mut s = self.0.lock().unwrap();
+        s.live -= 1;
+        if let Some(w) = s.waker.take() {
+            w.wake();
+        }
+    }
+}
+
+#[derive(Clone)]
+struct PermittedSvc {
+    _permit: Arc<Permit>,
+}
+impl tower::Service<http::Request<hyperdriver::Body>> for PermittedSvc {
+    type Response = http::Response<hyperdriver::Body>;
+    type Error = std::io::Error;
+    type Future = std::pin::Pin<Box<dyn std::future::Future<Output = Result<Self::Response, Self::Error>> + Send>>;
+    fn poll_ready(&mut self, _: &mut std::task::Context<'_>) -> std::task::Poll<Result<(), Self::Error>> {
+        std::task::Poll::Ready(Ok(()))
+    }
+    fn call(&mut self, req: http::Request<hyperdriver::Body>) -> Self::Future {
+        Box::pin(async move {
+            use http_body_util::BodyExt;
+            let _ = req.into_body().collect().await;
+            Ok(http::Response::new(hyperdriver::Body::from("ok".to_string())))
+        })
+    }
+}
+
+impl<'a> tower::Service<&'a hyperdriver::server::conn::Stream> for CappedMake {
+    type Response = PermittedSvc;
+    type Error = std::convert::Infallible;
+    type Future = std::future::Ready<Result<PermittedSvc, std::convert::Infallible>>;
+    fn poll_ready(&mut self, cx: &mut std::task::Context<'_>) -> std::task::Poll<Result<(), Self::Error>> {
+        let mut s = self.st.lock().unwrap();
+        if s.live < self.cap {
+            s.ready_granted = true;
+            std::task::Poll::Ready(Ok(()))
+        } else {
+            s.ready_granted = false;
+            s.waker = Some(cx.waker().clone());
+            std::task::Poll::Pending
+        }
+    }
+    fn call(&mut self, _conn: &'a hyperdriver::server::conn::Stream) -> Self::Future {
+        let mut s = self.st.lock().unwrap();
+        if !s.ready_granted {
+            let live = s.live;
+            s.violations.push(format!("make-service called although its last poll_ready did not return Ready ({live} live connections, cap {})", self.cap));
+        }
+        s.ready_granted = false;
+        s.live += 1;
+        std::future::ready(Ok(PermittedSvc { _permit: Arc::new(Permit(self.st.clone())) }))
+    }
+}
+
+pub struct MakeReadyEngine;
+
+impl Engine for MakeReadyEngine {
+    type Case = MakeReadyCase;
+    fn name(&self) -> &'static str {
+        "makeready"
+    }
+    fn run_case(&self, c: &MakeReadyCase) -> CaseReport {
+        let mut rep = CaseReport::default();
+        let _ = crate::panichook::take_all();
+        let rt = tokio::runtime::Builder::new_current_thread().enable_time().start_paused(true).build().unwrap();
+        let c2 = c.clone();
+        let st: Arc<std::sync::Mutex<MakeState>> = Default::default();
+        let st2 = st.clone();
+        let res = std::panic::catch_unwind(std::panic::AssertUnwindSafe(|| {
+            rt.block_on(async move {
+                let (client, incoming) = hyperdriver::stream::duplex::pair();
+                let make = CappedMake { st: st2, cap: (c2.cap as usize).clamp(1, 3) };
+                let b = hyperdriver::Server::builder::<hyperdriver::Body>().with_incoming(incoming);
+                let server = if c2.proto % 2 == 0 {
+                    tokio::spawn(async move { b.with_http1().with_make_service(make).with_tokio().await.map_err(|e| e.to_string()) })
+                } else {
+                    tokio::spawn(async move { b.with_auto_http().with_make_service(make).with_tokio().await.map_err(|e| e.to_string()) })
+                };
+                let mut tasks = vec![];
+                for (i, (start, stall)) in c2.clients.iter().cloned().enumerate() {
+                    let client = client.clone();
+                    tasks.push(tokio::spawn(async move {
+                        tokio::time::sleep(Duration::from_millis(start as u64)).await;
+                        let mut s = match client.connect(1024).await {
+                            Ok(s) => s,
+                            Err(e) => return (i, stall, Err(format!("connect: {e}"))),
+                        };
+                        if stall == 255 {
+                            tokio::time::sleep(Duration::from_millis(40)).await;
+                            return (i, stall, Ok(()));
+                        }
+                        tokio::time::sleep(Duration::from_millis(stall as u64)).await;
+                        let r = async {
+                            s.write_all(b"GET /x HTTP/1.1\r\nhost: x\r\nconnection: close\r\n\r\n").await.map_err(|e| format!("write: {e}"))?;
+                            let mut buf = vec![];
+                            s.read_to_end(&mut buf).await.map_err(|e| format!("read: {e}"))?;
+                            if buf.starts_with(b"HTTP/1.1 200") {
+                                Ok(())
+                            } else {
+                                Err(format!("answer {:?}", String::from_utf8_lossy(&buf[..buf.len().min(40)])))
+                            }
+                        };
+                        (i, stall, r.await)
+                    }));
+                }
+                let mut out = vec![];
+                for t in tasks {
+                    match tokio::time::timeout(Duration::from_secs(30), t).await {
+                        Ok(Ok(x)) => out.push(x),
+                        Ok(Err(e)) => out.push((usize::MAX, 0, Err(format!("client task: {e}")))),
+                        Err(_) => out.push((usize::MAX, 0, Err("a client was not served within 30 virtual seconds".to_string()))),
+                    }
+                }
+                let ended = server.is_finished();
+                let end = if ended { Some(format!("{:?}", server.await)) } else { server.abort(); None };
+                (out, end)
+            })
+        }));
+        drop(rt);
+        for (loc, msg) in crate::panichook::take_all() {
+            if crate::panichook::in_library(&loc) {
+                rep.violate("C09/panic-in-server-task", format!("panic at {loc}: {msg}"));
+            }
+        }
+        for v in st.lock().unwrap().violations.iter() {
+            rep.violate("C09/make-service-called-without-readiness", format!("{v}; case {c:?}"));
+        }
+        match res {
+            Err(_) => {
+                if rep.violations.is_empty() {
+                    rep.internal_error = Some(format!("harness panic at {}: {}", crate::panichook::last_location(), crate::panichook::last_message()));
+                }
+            }
+            Ok((out, end)) => {
+                if let Some(e) = end {
+                    rep.violate("C09/server-stopped-after-connection-fault", format!("the serving future ended ({e}) with a capped make-service and clients {:?}", c.clients));
+                }
+                for (i, stall, r) in out {
+                    if let Err(e) = r {
+                        rep.violate("C09/client-behind-stalled-connection-not-served", format!("client {i} (stall {stall} ms) of {c:?}: {e}"));
+                    }
+                }
+            }
+        }
+        rep.class("capped-make-service");
+        if c.clients.len() > (c.cap as usize).clamp(1, 3) {
+            rep.class("more-clients-than-the-cap");
+        }
+        rep.nontrivial = c.clients.len() > (c.cap as usize).clamp(1, 3) && c.clients.iter().any(|(_, s)| *s > 0);
+        rep.total_ops = c.clients.len() as u64;
+        rep
+    }
+}
+
+pub fn makeready_strategy() -> impl proptest::strategy::Strategy<Value = MakeReadyCase> {
+    use proptest::prelude::*;
+    (1u8..3, proptest::collection::vec((prop_oneof![3 => Just(0u8), 1 => 0u8..30], prop_oneof![2 => Just(0u8), 2 => 1u8..60, 1 => Just(255u8)]), 1..7), 0u8..2).prop_map(|(cap, clients, proto)| MakeReadyCase { cap, clients, proto })
+}
